@@ -102,13 +102,14 @@ def oracle(case, obs):
             asked = op[1] or (None if generic else default)
         elif k == "g":
             generic = bool(op[1])
-        if rec["out"] in ("LOOP", "FUEL") or rec["out"].startswith("EXC:"):
+        injected = bool(rec.get("injected"))     # this operation was abandoned by the injected fault: its own outcome is not judged
+        if (rec["out"] in ("LOOP", "FUEL") or rec["out"].startswith("EXC:")) and not injected:
             out.append((f"op {i} {op}: ended with {rec['out']}", flags))
         # a cooperative device never makes a valid request fail: the lines have to reach it (in the level named)
         known = base_names + registered
         wants = {"A": op[1] if k == "A" else None, "G": asked, "g1": asked, "I": asked, "c": asked, "C": asked, "O": default, "X": default}.get(k)
         refused_by_design = k in ("G", "g1") and generic
-        if cooperative and rec["out"] == "priv" and not refused_by_design and (wants is None or wants in known):
+        if cooperative and rec["out"] == "priv" and not refused_by_design and not injected and (wants is None or wants in known):
             out.append((f"op {i} {op}: ScrapliPrivilegeError although the device cooperates and the level {wants!r} exists", flags))
         if k == "R" and rec["out"] == "ok":
             registered = registered + [op[1]]
@@ -176,6 +177,8 @@ def gen_cases(ck, tier):
             dpw, sec, pwl = rng.choice(base.PW_VARIANTS + [(None, "", 3)] * 4)
             cases.append(mk(p, rng.choice(logins), h, blocked, dpw, sec, pwl, names=base.rand_names(rng, p)))
     for p in privgen.PLATFORMS:
+        cases += list(fault_histories(rng, p, 260 if tier == "quick" else None))
+    for p in privgen.PLATFORMS:
         cases += list(lifecycle_histories(rng, p, 3 if tier == "quick" else 4))
         cases += list(lifecycle_histories(rng, p, 0, budget=80 if tier == "quick" else 2000))
     for p, sets in SESSION_NAME_SETS.items():
@@ -207,6 +210,25 @@ def session_histories(rng, platform, names, nmax, budget=None):
         for _ in range(budget):
             yield mk(platform, rng.choice(login_levels(platform)), [rng.choice(more) for _ in range(rng.choice([3, 4, 5, 6, 8]))],
                      names=base.rand_names(rng, platform))
+
+
+def fault_histories(rng, platform, budget=None):
+    """an operation is abandoned INSIDE one of its privilege changes while the connection stays usable (timeout with
+    NO_TERMINATE_ON_TIMEOUT, cancelled asyncio task, injected exception; before the write / line typed but not entered / entered and
+    completed by the device, its answer kept or lost); what follows must still run in the right level.
+    [optional first operation; the operation hit by the fault at its first or second hop; one or two follow-ups]"""
+    c = base.ctx(platform)
+    names = [r[0] for r in c["rows"]]
+    cl = config_levels(platform, [])
+    movers = [("G", False, lv, ["cfg a"]) for lv in cl] + [("A", n) for n in names if n != c["default"]] + [("I", cl[-1] or "configuration", ["int a"])]
+    follow = [[("c", "show a")], [("G", False, cl[-1], ["cfg b"])], [("C", False, ["show a", "show b"]), ("G", False, "", ["cfg b"])],
+              [("A", names[-1]), ("c", "show a")]]
+    firsts = [[], [("c", "show a")]]
+    combos = [(f0, m, fo, fv, hop) for f0 in firsts for m in movers for fo in follow for fv in base.fault_variants() for hop in (1, 2)]
+    if budget is not None:
+        combos = [rng.choice(combos) for _ in range(budget)]
+    for f0, m, fo, fv, hop in combos:
+        yield dict(mk(platform, c["default"], f0 + [m] + fo), fault=dict(fv, k=hop))
 
 
 def lifecycle_histories(rng, platform, nmax, budget=None):
@@ -405,7 +427,8 @@ def run(tier, seed):
         outs = [r["out"] for r in obs_s[i]["recs"]]
         ck.case(json.dumps(c, sort_keys=True), nontrivial=len(kinds) >= 2 and sends >= 1,
                 sample={k: c.get(k) for k in ("platform", "host", "user", "login", "ops", "blocked", "dpw", "sec")},
-                tags=(c["platform"], f"len={min(len(kinds), 12)}", f"login={c['login']}", "blocked" if c["blocked"] else "coop", "reopened-with-hooks" if c.get("hooks") else "single-session", "host-has-upper" if any(ch.isupper() for ch in c.get("host", "")) else "host-lower",
+                tags=(c["platform"], f"len={min(len(kinds), 12)}", f"login={c['login']}", "blocked" if c["blocked"] else "coop", "reopened-with-hooks" if c.get("hooks") else "single-session",
+                      *((f"fault={c['fault']['point']}/{c['fault']['kind']}",) if c.get("fault") else ()), "host-has-upper" if any(ch.isupper() for ch in c.get("host", "")) else "host-lower",
                       *{f"op={k}" for k in kinds}, *{f"out={o}" for o in outs}))
         for stack, o in runs:
             v = oracle(c, o)
